@@ -19,6 +19,7 @@ std::string monitor_events(const std::vector<wapi::Event> &ev, int T, const std:
   std::vector<uint32_t> taken(T, 0), expect(T, 0);
   std::vector<int> filling(T, 0), flushing(T, 0), has_data(T, 0), fill_no(T, -1);
   std::vector<uint64_t> last_take(T, 0);
+  std::vector<int> in_use(T, 0); // worker holds a block it was given and has not come back for the next one
   size_t fills = 0, flushes = 0, handbacks = 0, publishes = 0, takes = 0, runcry = 0;
   auto err = [&](size_t i, const std::string &m) { return "event #" + std::to_string(i) + ": " + m; };
   for (size_t i = 0; i < ev.size(); i++)
@@ -99,6 +100,7 @@ std::string monitor_events(const std::vector<wapi::Event> &ev, int T, const std:
           return err(i, "buffer " + std::to_string(b) + ": more blocks taken than the chunk holds");
         taken[b]++;
         last_take[w] = e.obj;
+        in_use[w] = 1;
         takes++;
       }
       break;
@@ -129,6 +131,8 @@ std::string monitor_events(const std::vector<wapi::Event> &ev, int T, const std:
         return err(i, "fill/flush by thread " + std::to_string(e.tid));
       if (owner[b] == OWN_WORKER)
         return err(i, std::string(e.kind == EV_FILL_BEGIN ? "refill" : "flush") + " of buffer " + std::to_string(b) + " started while its worker owns it");
+      if (in_use[b])
+        return err(i, std::string(e.kind == EV_FILL_BEGIN ? "refill" : "flush") + " of buffer " + std::to_string(b) + " started while its worker still holds a block of it (taken, not yet back for the next one)");
       if (e.kind == EV_FILL_BEGIN)
         filling[b] = 1;
       else
@@ -171,6 +175,8 @@ std::string monitor_events(const std::vector<wapi::Event> &ev, int T, const std:
     case EV_WORKER_ENTER:
       if (e.tid != (int)e.a + 1)
         return err(i, "worker id " + std::to_string(e.a) + " used by thread " + std::to_string(e.tid));
+      if (e.a >= 0 && e.a < T)
+        in_use[e.a] = 0;
       break;
     default:
       break;
@@ -595,7 +601,7 @@ void fixed_sched(Ctx &ctx, SchedProp which, const char *pid)
     add(op, 4, 1, 63, -1, 1);
   }
   add("ver", 2, 1, 20, 2, 3);
-  uint64_t cap = ctx.thorough() ? 3000000 : 60000;
+  uint64_t cap = ctx.thorough() ? 150000 : 60000;
   uint64_t i = 0, total = 0, completed = 0, capped = 0;
   // largest trees first so that the shards finish together
   std::stable_sort(m.begin(), m.end(), [&](const Cfg &x, const Cfg &y) {
